@@ -9,9 +9,11 @@ package main
 import (
 	"fmt"
 	"math/rand/v2"
+	"os"
 	"sort"
 	"strings"
 	"sync"
+	"time"
 
 	bnet "github.com/bio-routing/bio-rd/net"
 
@@ -226,6 +228,7 @@ func runHist(h hist) (res result) {
 	for i, p := range h.Universe {
 		bio[i] = p.Bio()
 	}
+	blockedSeen := map[int]bool{}      // session index -> a selected path barred by R1-R3 was seen at an earlier evaluation
 	inLoc := map[int]map[uint32]bool{} // harness' own record of what it put into the Loc-RIB (for the stale/extra distinction only)
 	for i, o := range h.Ops {
 		curOp = i
@@ -322,6 +325,7 @@ func runHist(h hist) (res result) {
 				}
 				return m
 			}
+			blockedBefore := blockedSeen[si]
 			for pi, p := range h.Universe {
 				k := p.Key()
 				var loc []rig.Attr
@@ -354,6 +358,15 @@ func runHist(h hist) (res result) {
 					}
 					want[a.ID] = exp{a, c, m}
 				}
+				blockedSibling := false // a selected path of this prefix is barred by its communities or is the peer's own path
+				for _, w := range why {
+					if strings.HasPrefix(w, "R1") || strings.HasPrefix(w, "R2") || strings.HasPrefix(w, "R3") {
+						blockedSibling = true
+					}
+				}
+				if blockedSibling {
+					blockedSeen[si] = true
+				}
 				obs := observed[k]
 				delete(observed, k)
 				st.compared++
@@ -361,27 +374,52 @@ func runHist(h hist) (res result) {
 					st.staleChecks++
 				}
 				ctx := func() string {
-					return fmt.Sprintf("op %d %s %s (path %d) session %s policy %q: Loc-RIB %s, Adj-RIB-Out %s", i, o.K, p, o.ID, s, pol.String(), rig.ShortList(loc), rig.ShortList(obs))
+					return fmt.Sprintf("op %d %s %s (path %d) session %s policy %q: Loc-RIB (in preference order) %s, Adj-RIB-Out %s", i, o.K, p, o.ID, s, pol.String(), rig.OrderedList(loc), rig.ShortList(obs))
 				}
 				got := map[uint32]int{}
 				dk := func(c string, id uint32) string { return fmt.Sprintf("%d|%s|%s|%d", si, c, k, id) }
+				// A redistributed static route carries its unique id in attributes the session or the policy may
+				// overwrite (next hop); two static paths whose exported attributes coincide are one path as far as the
+				// statement (and the peer) can tell. Such an observed path stands for any expected static path with
+				// the same projection, and copies of it are not counted.
+				obs = resolveStatics(l, s, obs, func(id uint32) (rig.Attr, []rig.Attr, []string, bool) {
+					e, ok := want[id]
+					return e.a, e.cands, e.mask, ok
+				}, func() []uint32 {
+					var ids []uint32
+					for id, e := range want {
+						if e.a.Static {
+							ids = append(ids, id)
+						}
+					}
+					sort.Slice(ids, func(a, b int) bool { return ids[a] < ids[b] })
+					return ids
+				}())
 				for _, ob := range obs {
 					ob := ob
 					got[ob.ID]++
-					if got[ob.ID] == 2 {
-						disc(dk("duplicate", ob.ID), "duplicate", func() map[string]string { return f() }, ctx)
+					if got[ob.ID] == 2 && !ob.Static {
+						disc(dk("duplicate", ob.ID), "duplicate", func() map[string]string {
+							return f("transform", rig.Transform(l, s, pol, p, h.Paths[ob.ID]), "tie", hasTie(h, pi, ob.ID))
+						}, ctx)
 					}
 					e, ok := want[ob.ID]
 					if !ok {
 						switch w := why[ob.ID]; {
 						case w == "" && !inLoc[pi][ob.ID]:
-							disc(dk("stale", ob.ID), "stale", func() map[string]string { return f("rewrites", s.Rewrites() || pol.Modifies()) },
+							disc(dk("stale", ob.ID), "stale", func() map[string]string {
+								return f("transform", rig.Transform(l, s, pol, p, h.Paths[ob.ID]), "tie", hasTie(h, pi, ob.ID))
+							},
 								func() string { return fmt.Sprintf("holds path %d which the Loc-RIB has withdrawn: %s", ob.ID, ctx()) })
 						case w == "":
 							disc(dk("unknown", ob.ID), "unknown-path", func() map[string]string { return f() },
-								func() string { return "holds a path that is not in the Loc-RIB although the harness never removed it: " + ctx() })
+								func() string {
+									return "holds a path that is not in the Loc-RIB although the harness never removed it: " + ctx()
+								})
 						default:
-							disc(dk("extra", ob.ID), "extra:"+strings.SplitN(w, ":", 2)[0], func() map[string]string { return f() },
+							disc(dk("extra", ob.ID), "extra:"+strings.SplitN(w, ":", 2)[0], func() map[string]string {
+								return f("transform", rig.Transform(l, s, pol, p, h.Paths[ob.ID]), "tie", hasTie(h, pi, ob.ID))
+							},
 								func() string { return fmt.Sprintf("holds path %d which must not be there (%s): %s", ob.ID, w, ctx()) })
 						}
 						continue
@@ -404,7 +442,9 @@ func runHist(h hist) (res result) {
 				for _, id := range ids {
 					id := id
 					if got[id] == 0 {
-						disc(dk("missing", id), "missing", func() map[string]string { return f("source", rig.SourceKind(want[id].a)) },
+						disc(dk("missing", id), "missing", func() map[string]string {
+							return f("source", rig.SourceKind(want[id].a), "blocked_sibling", blockedSibling, "blocked_earlier", blockedBefore, "tie", hasTie(h, pi, id))
+						},
 							func() string { return fmt.Sprintf("path %d is selected and admitted but absent: %s", id, ctx()) })
 					}
 				}
@@ -412,7 +452,9 @@ func runHist(h hist) (res result) {
 			for k, obs := range observed {
 				k, obs := k, obs
 				disc(fmt.Sprintf("%d|foreign|%s", si, k), "foreign-prefix", func() map[string]string { return f() },
-					func() string { return fmt.Sprintf("op %d: session %s holds %s for prefix key %s outside the universe", i, s, rig.ShortList(obs), k) })
+					func() string {
+						return fmt.Sprintf("op %d: session %s holds %s for prefix key %s outside the universe", i, s, rig.ShortList(obs), k)
+					})
 			}
 		}
 	}
@@ -464,9 +506,12 @@ func fires(h hist, sig string) (bool, int, vf.Violation) {
 
 // shrink reduces a failing history to a small one with the same violation signature: truncate after the operation
 // that exposed it, drop the other sessions, then delete operations greedily.
-func shrink(h hist, sig string) vf.Violation {
+func shrink(h hist, sig string, full bool) vf.Violation {
 	ok, at, v := fires(h, sig)
 	if !ok {
+		if os.Getenv("C08_SHRINK") != "" {
+			fmt.Println("shrink: signature does not fire again:", sig)
+		}
 		return vf.Violation{}
 	}
 	cur := h
@@ -488,7 +533,7 @@ func shrink(h hist, sig string) vf.Violation {
 			cur, v = try, v2
 		}
 	}
-	for changed := true; changed; {
+	for changed := full; changed; {
 		changed = false
 		for i := len(cur.Ops) - 2; i >= 0; i-- {
 			try := cur
@@ -539,6 +584,80 @@ func shrink(h hist, sig string) vf.Violation {
 	return v
 }
 
+// resolveStatics relabels observed static paths: an observed static path that does not match the expected path of
+// its own id but matches the projection of another expected static path is given that path's id.
+func resolveStatics(l rig.Local, s rig.Sess, obs []rig.Attr, want func(uint32) (rig.Attr, []rig.Attr, []string, bool), staticIDs []uint32) []rig.Attr {
+	out := append([]rig.Attr{}, obs...)
+	satisfied := map[uint32]bool{}
+	matches := func(id uint32, ob rig.Attr) bool {
+		a, cands, mask, ok := want(id)
+		if !ok {
+			return false
+		}
+		probe := ob
+		probe.ID = id
+		d, _ := rig.MatchObserved(l, s, a, probe, cands, mask)
+		return len(d) == 0
+	}
+	var open []int
+	for i, ob := range out {
+		if !ob.Static {
+			continue
+		}
+		if matches(ob.ID, ob) && !satisfied[ob.ID] {
+			satisfied[ob.ID] = true
+			continue
+		}
+		open = append(open, i)
+	}
+	for _, i := range open {
+		// prefer an expected path nobody stands for yet, else any with the same projection
+		done := false
+		for _, id := range staticIDs {
+			if !satisfied[id] && matches(id, out[i]) {
+				out[i].ID, satisfied[id], done = id, true, true
+				break
+			}
+		}
+		for _, id := range staticIDs {
+			if !done && matches(id, out[i]) {
+				out[i].ID, done = id, true
+			}
+		}
+	}
+	return out
+}
+
+// selectKey lists the attributes bio-rd's path comparison (route.BGPPath.Select) looks at; two paths with the same key
+// are equally preferred.
+func selectKey(a rig.Attr) string {
+	n := 0
+	for _, s := range a.ASPath {
+		if s.Set {
+			n++
+		} else {
+			n += len(s.ASNs)
+		}
+	}
+	return fmt.Sprint(a.Static, a.LocalPref, n, a.Origin, a.MED, a.EBGP, a.BGPID, a.OriginatorID, len(a.ClusterList), a.Source, a.NextHop)
+}
+
+// hasTie reports whether the history puts another path on prefix pi that bio-rd's comparison cannot tell from path id.
+func hasTie(h hist, pi int, id uint32) bool {
+	k := selectKey(h.Paths[id])
+	for _, o := range h.Ops {
+		if o.K == "attach" || o.Pfx != pi {
+			continue
+		}
+		for _, x := range []uint32{o.ID, o.New} {
+			if x != 0 && x != id && !h.Paths[x].Static && selectKey(h.Paths[x]) == k {
+				return true
+			}
+		}
+	}
+	return false
+}
+
 func fieldsOf(a rig.Attr, fs []string) string {
 	var p []string
 	for _, f := range fs {
@@ -555,7 +674,7 @@ func main() {
 			"ORIGINATOR_ID/CLUSTER_LIST on non-reflected routes towards an RR client and AS_PATH/next hop towards an RS client: both outcomes accepted")
 		_, replay := r.Replaying()
 		hg := rig.NewHangGuard(replay)
-		hg.Short = 0 // histories are long; use the long timeout only
+		hg.Short, hg.Long = 0, 60*time.Second // whole histories run under the long timeout only
 		report := func(h hist, i int) {
 			res, p, hung, stk := rig.RunGuarded(hg, "hist", func() result { return runHist(h) })
 			if hung {
@@ -569,13 +688,32 @@ func main() {
 			for _, v := range res.viol {
 				sig := v.Signature()
 				mu.Lock()
-				first := !shrunk[sig]
-				shrunk[sig] = true
+				done, seen := shrunk[sig]
+				if !seen {
+					done = make(chan struct{})
+					shrunk[sig] = done
+				}
 				mu.Unlock()
-				if first && !replay {
-					if sv := shrink(h, sig); sv.Clause != "" {
-						v = sv
+				if seen {
+					<-done // the first reporter registers the shrunk witness; later ones only count
+				} else {
+					if !replay || os.Getenv("C08_SHRINK") != "" {
+						// full (quadratic) shrinking once per class of violation, cheap truncation for the rest
+						class := v.Clause
+						for _, k := range []string{"transform", "tie", "blocked_sibling", "blocked_earlier", "addpath", "site", "fields"} {
+							class += "|" + v.Features[k]
+						}
+						mu.Lock()
+						full := !shrunkClass[class]
+						shrunkClass[class] = true
+						mu.Unlock()
+						if sv := shrink(h, sig, full); sv.Clause != "" {
+							v = sv
+						}
 					}
+					r.Violate(v)
+					close(done)
+					continue
 				}
 				r.Violate(v)
 			}
@@ -606,7 +744,7 @@ func main() {
 				for _, s := range h.Sessions {
 					ss = append(ss, s.Sess.String()+" "+s.Policy.String())
 				}
-				r.Sample(map[string]any{"v4": h.V4, "sessions": ss, "n_ops": len(h.Ops), "first_ops": h.Ops[:8], "n_paths": len(h.Paths)})
+				r.Sample(map[string]any{"v4": h.V4, "sessions": ss, "n_ops": len(h.Ops), "first_ops": h.Ops[:min(8, len(h.Ops))], "n_paths": len(h.Paths)})
 			}
 		}
 		if raw, ok := r.Replaying(); ok {
@@ -629,10 +767,11 @@ func main() {
 }
 
 var (
-	mu        sync.Mutex
-	announced = map[string]int{}
-	withdrawn = map[string]int{}
-	best      = map[string]int{}
-	byWhy     = map[string]int{}
-	shrunk    = map[string]bool{}
+	mu          sync.Mutex
+	announced   = map[string]int{}
+	withdrawn   = map[string]int{}
+	best        = map[string]int{}
+	byWhy       = map[string]int{}
+	shrunk      = map[string]chan struct{}{}
+	shrunkClass = map[string]bool{}
 )
